@@ -291,7 +291,7 @@ func (g *gen) genPDF() {
 	}
 
 	// colour schemes are passed through
-	g.emit("pdf %s 2 @RGBAModel|RGBA/ffff,ffff,0000,ffff|RGBA/0000,0000,8080,ffff", hx("Colour 1"))
-	g.emit("pdf %s 0 @GrayModel|Gray/ffff,ffff,ffff,ffff|Gray/0000,0000,0000,ffff", hx("Colour 2"))
-	g.emit("pdf %s 9 @GrayModel|Gray/ffff,ffff,ffff,ffff|Gray/0000,0000,0000,ffff", hx("Colour 3"))
+	g.emit("pdf %s 2 @RGBAModel|RGBA:ff,ff,00,ff|RGBA:00,00,80,ff", hx("Colour 1"))
+	g.emit("pdf %s 0 @GrayModel|Gray:ff|Gray:00", hx("Colour 2"))
+	g.emit("pdf %s 9 @GrayModel|Gray:ff|Gray:00", hx("Colour 3"))
 }
